@@ -7,7 +7,11 @@ open SciVerif.C19
 
 def toStr (s : String) : Str := s.toList
 def ofStr (s : Str) : String := String.ofList s
-def jS (s : Str) : Json := Json.str (ofStr s)
+/-- strings leave the driver as ASCII only: a text with a character outside ASCII is sent as the list of its
+    code points (`{"cp":[…]}`), so that the line protocol does not depend on the locale of the reading process -/
+def jS (s : Str) : Json :=
+  if s.all (fun c => c.toNat < 128) then Json.str (ofStr s)
+  else Json.mkObj [("cp", Json.arr (s.map (fun c => Json.num (JsonNumber.fromNat c.toNat))).toArray)]
 
 def parseKind (s : String) : Except String Kind :=
   match s with
